@@ -235,5 +235,57 @@ GROUP = {
                 reveal_with_fuel(fold_txns, 2);
                 assert(txn.postings@.len() == txns[ti__ as int].postings@.len());
             }"""}),
+        # ---- Ledger::eval (`okane eval [-X T]`): the expression's amount, converted as a whole at the asked date when an exchange commodity is given
+        U("EvalContext(type)", QU, [r"pub struct EvalContext\b"]),
+        ("raw", """
+pub mod syntax { pub mod expr { #[verifier::external_body] pub struct ValueExpr { _p: usize } } }
+#[verifier::external_body] pub struct Evaluated { _p: usize }
+/// ASSUMED models of what Ledger::eval calls outside this group: the expression parser (parse/expr.rs, bounded family c08), the read-only evaluator
+/// (Evaluable::eval; eval_visit is proved in group evalvisit), TryFrom<Evaluated> for Amount (proved in group evaluated)
+pub uninterp spec fn parsed_expr(text: Seq<char>) -> Result<syntax::expr::ValueExpr, parse::ParseError>;
+#[verifier::external_body]
+pub fn parse_value_expr(text: &str) -> (r: Result<syntax::expr::ValueExpr, parse::ParseError>) ensures r == parsed_expr(text@) { unimplemented!() }
+impl syntax::expr::ValueExpr {
+    pub uninterp spec fn eval_ro(&self, ctx: &ReportContext) -> Result<Evaluated, EvalError>;
+    #[verifier::external_body]
+    pub fn eval(&self, ctx: &ReportContext) -> (r: Result<Evaluated, EvalError>) ensures r == self.eval_ro(ctx) { unimplemented!() }
+}
+pub uninterp spec fn amount_of(ev: Evaluated) -> Result<Amount, EvalError>;
+#[verifier::external_body]
+pub fn amount_try_from_evaluated(ev: Evaluated) -> (r: Result<Amount, EvalError>) ensures r == amount_of(ev) { unimplemented!() }
+#[verifier::external_body]
+pub fn commodity_not_found(name: &String) -> (r: QueryError) ensures r is CommodityNotFound { unimplemented!() }
+// thiserror #[from] on QueryError (R13)
+impl vstd::std_specs::convert::FromSpecImpl<EvalError> for QueryError {
+    open spec fn obeys_from_spec() -> bool { true }
+    open spec fn from_spec(e: EvalError) -> QueryError { QueryError::EvalFailed(e) }
+}
+impl From<EvalError> for QueryError { fn from(e: EvalError) -> (r: QueryError) { QueryError::EvalFailed(e) } }
+/// what the expression evaluates to (None: it does not parse, is ill-typed, or is not an amount)
+pub open spec fn expr_amount(ctx: &ReportContext, text: Seq<char>) -> Option<Amount> {
+    match parsed_expr(text) { Ok(e) => match e.eval_ro(ctx) { Ok(v) => match amount_of(v) { Ok(a) => Some(a), Err(_) => None }, Err(_) => None }, Err(_) => None }
+}
+"""),
+        U("Ledger::eval", QU, [r"impl<'ctx> Ledger<'ctx>", r"pub fn eval\b"], fn="eval", wrap=("impl Ledger {", "}"),
+          rewrites=[RET(), ("R34b",),
+                    ("R11-ok-or", "re:ctx\\.commodities\\.resolve\\(x\\)\\.ok_or_else\\(\\|\\| \\{\\s*QueryError::CommodityNotFound\\([^;{}]*\\)\\s*\\}\\)", "ctx.commodities.resolve(x.as_str()).ok_or(commodity_not_found(x))", 1),
+                    ("R24-std-model", "re:expression\\.try_into\\(\\)\\.map_err\\(QueryError::ParseFailed\\)\\?",
+                     "match parse_value_expr(expression) { Ok(p__) => p__, Err(e__) => { return Err(QueryError::ParseFailed(e__)); } }", 1),
+                    ("R20-into-to-from", "re:let evaled: Amount = parsed\\.eval\\(ctx\\)\\?\\.try_into\\(\\)\\?;", "let evaled: Amount = amount_try_from_evaluated(parsed.eval(ctx)?)?;", 1),
+                    ("R1-path", "price_db::convert_amount(", "convert_amount(", 1), ("R4-to-string", "err.to_string()", "opaque_string()", 1)],
+          contract="""
+        requires old(self).price_repos.cache_consistent(),
+        ensures
+            final(self).price_repos.cache_consistent(), final(self).price_repos.inner == old(self).price_repos.inner,
+            final(self).transactions == old(self).transactions, final(self).raw_balance == old(self).raw_balance,
+            // an exchange commodity that the ledger does not know is an error, whatever the expression is
+            (eval_ctx.exchange matches Some(x) && ctx.commodities.resolved(x@) is None) ==> r matches Err(QueryError::CommodityNotFound(_)),   // @Ledger.eval.unknown_exchange_commodity_rejected
+            // without -X: the amount the expression evaluates to, or an error
+            eval_ctx.exchange is None ==> (match expr_amount(ctx, expression@) { Some(a) => r == Ok::<Amount, QueryError>(a), None => r is Err }),   // @Ledger.eval.value_of_the_expression
+            // with -X T: that amount converted as a whole into T at the asked date - every holding once, or failure (C10)
+            eval_ctx.exchange matches Some(x) ==> (ctx.commodities.resolved(x@) matches Some(t) ==> (match expr_amount(ctx, expression@) {
+                Some(a) => (match conv_amount(&old(self).price_repos.inner, a, t, eval_ctx.date) { Some(m) => r matches Ok(out) && out@ == m, None => r is Err }),
+                None => r is Err })),   // @Ledger.eval.converted_at_the_asked_date_or_fails
+"""),
     ],
 }
